@@ -16,7 +16,7 @@ type c11 struct{}
 func (c11) ID() string    { return "C11" }
 func (c11) Level() string { return "exploration" }
 func (c11) Rule() string {
-	return "27 default-able facts (default network membership; implicit default network; <project>_<key> names of network/volume/secret/config; depends_on implied by links, network_mode/ipc/pid service: namespaces, volumes_from; build context; dockerfile; port protocol; port mode; secret target; depends_on required; depends_on short list; env_file required; device count; pull_policy alias), each carried by its own service: every subset of <=3 facts left implicit and every subset of <=3 facts written explicitly (thorough: all 2^14 subsets of the first 14), delivered by main file / override / include / extended base (other file and same file), and (main file, extended base) under a later layer that adds other entries to the same attributes; oracle: implicit model == all-explicit model delivered the same way. Plus, per fact, an explicit non-default value that must survive, an implied depends_on that must not replace a declared one, and the `default` network present iff used, over every assignment of 3 services to 6 ways of using or not using it (implicit, explicit list, explicit mapping, with another network, network_mode, another network only). distinct = distinct subsets x origins"
+	return "27 default-able facts (default network membership; implicit default network; <project>_<key> names of network/volume/secret/config; depends_on implied by links, network_mode/ipc/pid service: namespaces, volumes_from; build context; dockerfile; port protocol; port mode; secret target; depends_on required; depends_on short list; env_file required; device count; pull_policy alias), each carried by its own service: every subset of <=3 facts left implicit and every subset of <=3 facts written explicitly (thorough: all 2^14 subsets of the first 14), delivered by main file / override / include / extended base (other file and same file), and (main file, extended base) under a later layer that restates the same entry in its other spelling and adds other entries to the same attributes; oracle: implicit model == all-explicit model delivered the same way. Plus, per fact, an explicit non-default value that must survive, an implied depends_on that must not replace a declared one, and the `default` network present iff used, over every assignment of 3 services to 6 ways of using or not using it (implicit, explicit list, explicit mapping, with another network, network_mode, another network only). distinct = distinct subsets x origins"
 }
 func (c11) Assumptions() []string {
 	return []string{"projects compared with go-cmp (EquateEmpty) over all model fields"}
@@ -30,6 +30,7 @@ type c11fact struct {
 	topExpl  string
 	nonDef   string // service body with an explicit non-default value ("" = not applicable)
 	refine   string // fragment a later layer adds to the service: touches the same attribute, but another entry of it
+	restates bool   // the refine fragment also restates the fact's own entry in its other spelling (then it legitimately decides explicit values)
 	nonDefOK func(p *types.Project, svc string) string
 }
 
@@ -93,21 +94,21 @@ func c11facts() []c11fact {
 				}
 				return ""
 			}},
-		{name: "port-protocol", refine: "    ports: [{target: 90, mode: host, protocol: udp}]\n", svc: "    image: i\n    ports: [{target: 80, mode: ingress}]\n", svcExpl: "    image: i\n    ports: [{target: 80, mode: ingress, protocol: tcp}]\n",
+		{name: "port-protocol", restates: true, refine: "    ports: [\"80\", {target: 90, mode: host, protocol: udp}]\n", svc: "    image: i\n    ports: [{target: 80, mode: ingress}]\n", svcExpl: "    image: i\n    ports: [{target: 80, mode: ingress, protocol: tcp}]\n",
 			nonDef: "    image: i\n    ports: [{target: 80, mode: ingress, protocol: udp}]\n", nonDefOK: func(p *types.Project, s string) string {
 				if p.Services[s].Ports[0].Protocol != "udp" {
 					return "explicit port protocol overwritten"
 				}
 				return ""
 			}},
-		{name: "port-mode", svc: "    image: i\n    ports: [{target: 81, protocol: tcp}]\n", svcExpl: "    image: i\n    ports: [{target: 81, protocol: tcp, mode: ingress}]\n",
+		{name: "port-mode", restates: true, refine: "    ports: [\"81\"]\n", svc: "    image: i\n    ports: [{target: 81, protocol: tcp}]\n", svcExpl: "    image: i\n    ports: [{target: 81, protocol: tcp, mode: ingress}]\n",
 			nonDef: "    image: i\n    ports: [{target: 81, protocol: tcp, mode: host}]\n", nonDefOK: func(p *types.Project, s string) string {
 				if p.Services[s].Ports[0].Mode != "host" {
 					return "explicit port mode overwritten"
 				}
 				return ""
 			}},
-		{name: "secret-target", refine: "    secrets: [{source: sec, target: /other}]\n", svc: "    image: i\n    secrets: [{source: sec}]\n", svcExpl: "    image: i\n    secrets: [{source: sec, target: /run/secrets/sec}]\n",
+		{name: "secret-target", restates: true, refine: "    secrets: [sec, {source: sec, target: /other}]\n", svc: "    image: i\n    secrets: [{source: sec}]\n", svcExpl: "    image: i\n    secrets: [{source: sec, target: /run/secrets/sec}]\n",
 			nonDef: "    image: i\n    secrets: [{source: sec, target: /elsewhere}]\n", nonDefOK: func(p *types.Project, s string) string {
 				if p.Services[s].Secrets[0].Target != "/elsewhere" {
 					return "explicit secret target overwritten"
@@ -124,7 +125,7 @@ func c11facts() []c11fact {
 				}
 				return ""
 			}},
-		{name: "env-file-required", refine: "    env_file: [{path: ./f.env, required: false}]\n", svc: "    image: i\n    env_file: [{path: ./e.env}]\n", svcExpl: "    image: i\n    env_file: [{path: ./e.env, required: true}]\n",
+		{name: "env-file-required", restates: true, refine: "    env_file: [\"./e.env\", {path: ./f.env, required: false}]\n", svc: "    image: i\n    env_file: [{path: ./e.env}]\n", svcExpl: "    image: i\n    env_file: [{path: ./e.env, required: true}]\n",
 			nonDef: "    image: i\n    env_file: [{path: ./missing.env, required: false}]\n", nonDefOK: func(p *types.Project, s string) string {
 				for _, e := range p.Services[s].EnvFiles {
 					if strings.HasSuffix(e.Path, "missing.env") {
@@ -351,7 +352,7 @@ func (c11) Run(c *core.Ctx) {
 		}
 		// explicit non-default values survive
 		for i, f := range facts {
-			if f.nonDef == "" {
+			if f.nonDef == "" || (f.restates && strings.HasSuffix(origin, "+refine")) {
 				continue
 			}
 			i, f := i, f
